@@ -1233,8 +1233,7 @@ def remap_path(
             return path
     else:
         return path_processor.join(
-            new_dir,
-            *os.path.relpath(urllib.parse.unquote(path), old_dir).split(os.path.sep),
+            new_dir, *os.path.relpath(path, old_dir).split(os.path.sep)
         )
 
 
